@@ -330,14 +330,9 @@ fn generate_synthetic(run_seed: u64, mode: Mode, mut w: Rng, f: Rng) -> Scenario
     if knobs.with_std && faults.on("standard_library_module_edited", 1, 12) {
       // the tuple classes of the standard library are a module of the project like any other
       // (every tuple expression depends on it without importing it): edit it, and undo the edit
-      let original = {
-        let mut heap = samlang_heap::Heap::new();
-        samlang_parser::builtin_std_raw_sources(&mut heap)
-          .into_iter()
-          .find(|(m, _)| m.pretty_print(&heap) == "std.tuples")
-          .map(|(_, t)| t)
-          .unwrap_or_default()
-      };
+      // (the text the parser crate embeds; read here at compile time as well, because building a
+      // heap in the generator would create hash maps before the run's hash seed is installed)
+      let original = include_str!("/repo/std/tuples.sam").to_string();
       let edited = match w.below(3) {
         0 => original.replace("method first()", "method firstRenamedInTheLibrary()"),
         1 => original.replace("val e1: E1", "val renamedSecondElement: E1").replace("this.e1", "this.renamedSecondElement"),
